@@ -29,12 +29,14 @@ def ob_history(ob):
         pytrs.TRS._USE_CACHE = True
         base = {pi: observe(pi) for pi in probes}
 
+    fixed_first = ob.params.get('first')
+
     def run(pi, ops):
         pi = choose(pi, probes)
         save = (pytrs.TRS._USE_CACHE, pytrs.MasterConfig.default_ns, pytrs.MasterConfig.default_ew)
         try:
-            for o in ops:
-                apply_op(choose(o, range(len(OPS))), pi)
+            for j, o in enumerate(ops):
+                apply_op(fixed_first if (j == 0 and fixed_first is not None) else choose(o, range(len(OPS))), pi)
             if (pytrs.MasterConfig.default_ns, pytrs.MasterConfig.default_ew) != save[1:]:
                 return False
             return observe(pi) == base[pi]
@@ -50,7 +52,7 @@ def ob_history(ob):
     else:
         def target(pi: int, o0: int, o1: int, o2: int):
             return run(pi, [o0, o1, o2])
-    st = explore(target, timeout=ob.params.get('cap', 900), max_viol=10)
+    st = explore(target, timeout=ob.params.get('cap', 900), max_viol=2)
     info = dict(bound=f'histories of {nops} prior operations over {len(OPS)} kinds x {len(list(probes))} probes',
                 samples=[{'ops': list(OPS)}])
 
@@ -62,7 +64,7 @@ def ob_history(ob):
         pl = list(probes)
         for v in vs:
             a = v['args']
-            ops = [OPS[cl(a[f'o{i}'], len(OPS))] for i in range(nops)]
+            ops = [OPS[fixed_first if (i == 0 and fixed_first is not None) else cl(a[f'o{i}'], len(OPS))] for i in range(nops)]
             pi = pl[cl(a['pi'], len(pl))]
             key = 'history:' + '+'.join(sorted(set(ops)))
             out.setdefault(key, violation(key, f'probe #{pi} after prior operations {ops} differs from the same probe with an '
@@ -78,8 +80,11 @@ def obligations(tier):
          'PLSSDesc.__init__', 'TractList.tracts_to_dict', 'TractList.list_trs']
     obs = [Ob('history_1', 'S', ob_history, 'one prior operation', functions=F, weight=2, timeout=1500,
               params={'nops': 1, 'cap': 1200}),
-           Ob('history_2', 'S', ob_history, 'two prior operations', functions=F, weight=6, timeout=3000,
-              params={'nops': 2, 'cap': 2700})]
+           ]
+    from props.c15_ref import OPS
+    for k, name in enumerate(OPS):
+        obs.append(Ob(f'history_2_{name}', 'S', ob_history, f'two prior operations, the first being {name}', functions=F, weight=6,
+                      timeout=3000, params={'nops': 2, 'cap': 2700, 'first': k}))
     if not q:
         from props.c15_ref import N_PROBES
         for sh in range(7):
